@@ -121,13 +121,23 @@ class Calibrator:
       )
       if cache_output:
         self._cached_output.append(signature_output)
+      # Only the subgraph of the invoked signature has been executed.
+      signature_subgraph_index = (
+          tfl_interpreter_utils.get_signature_main_subgraph_index(
+              self._tfl_interpreter, signature_key
+          )
+      )
       self._tensor_content_map = (
           tfl_interpreter_utils.get_tensor_name_to_content_map(
-              self._tfl_interpreter
+              self._tfl_interpreter, signature_subgraph_index
           )
       )
       # Step2: go through each op to update quantization statistic values.
-      for subgraph in self._flatbuffer_model.subgraphs:
+      for subgraph_index, subgraph in enumerate(
+          self._flatbuffer_model.subgraphs
+      ):
+        if subgraph_index != signature_subgraph_index:
+          continue
         graph_info = qtyping.GraphInfo(
             subgraph.tensors, self._flatbuffer_model.buffers
         )
